@@ -153,6 +153,9 @@ def random_tree(rng, n):
 
 
 def rate_value(rng):
+    r = rng.random()
+    if r < 0.06:
+        return rng.choice([1.0, 2.0, 0.5, 100.0, 0.01, 7.3, 49.0, 0.9])     # exact / short values, incl. exactly 1
     return 10.0 ** rng.uniform(-4, 4)
 
 
